@@ -9,7 +9,8 @@
 #include <stdbool.h>
 enum { VF_K_LOAD = 1, VF_K_STORE, VF_K_XCHG, VF_K_CASW, VF_K_CASS, VF_K_ADD, VF_K_SUB, VF_K_AND, VF_K_OR, VF_K_YIELD, VF_K_LOCK, VF_K_UNLOCK };
 static void vf_hook_pre(int kind, const volatile void* addr);                 /* scheduling point before the operation */
-static void vf_hook_post(int kind, const volatile void* addr, uintptr_t oldv, uintptr_t newv, int ok);
+static void vf_hook_post_fn(const char* fn, int kind, const volatile void* addr, uintptr_t oldv, uintptr_t newv, int ok);
+#define vf_hook_post(kind, addr, oldv, newv, ok) vf_hook_post_fn(__func__, kind, addr, oldv, newv, ok)   /* the allocator function the operation belongs to */
 static int  vf_hook_spurious(const volatile void* addr);                       /* let this weak CAS fail spuriously? */
 
 #undef mi_atomic
